@@ -107,6 +107,17 @@ def gen_case(rng):
         kinds = [rng.choice('iif') for _ in cl]
         frames.append({'index': rl, 'columns': cl, 'cols': [_numcol(rng, len(rl), kd) for kd in kinds], 'name': ['none']})
     lays = [C.rand_layout(rng, f) for f in frames]
+    if r < 0.4 and rng.random() < 0.4 and axis == 0:
+        # overlay over equal columns where complete integer columns share a 2-D block to the left of float columns with holes
+        cl = rng.sample(pool, rng.randint(3, 4))
+        kinds = ['i', 'i'] + ['f'] * (len(cl) - 2)
+        frames, lays = [], []
+        rows_all = rng.sample(other, rng.randint(2, 3))
+        for i in range(k):
+            rl = list(rows_all) if i == 0 else rng.sample(rows_all, rng.randint(1, len(rows_all)))
+            f = {'index': rl, 'columns': list(cl), 'cols': [_numcol(rng, len(rl), kd) for kd in kinds], 'name': ['none']}
+            frames.append(f)
+            lays.append([[2, 2]] + ([[len(cl) - 2, 2]] if rng.random() < 0.5 else [[1, 1]] * (len(cl) - 2)))
     if r < 0.4:
         for f in frames:
             for c in f['cols']:
